@@ -168,4 +168,23 @@ def NeMap.step (s : NeMap) : Op → NeMap × Out
 def Sieve.run (s : Sieve) (ops : List Op) : Sieve := ops.foldl (fun s o => (s.step o).1) s
 def NeMap.run (s : NeMap) (ops : List Op) : NeMap := ops.foldl (fun s o => (s.step o).1) s
 
+
+/-! ### `cache.Stats` as a value (cache/cache.go)
+`Stats` holds pointers to the cache's live atomic counters; `Combined` must read both operands and return FRESH
+counters.  In the model a reading is a value, so `combined` cannot write to either cache by construction; the
+tie (`comb` op) checks that the real method behaves like this value-level function, i.e. that repeated readings
+and the caches' own later behaviour are unaffected. -/
+structure StatsV where
+  size : Int
+  hits : Nat
+  misses : Nat
+  cap : Int
+deriving Repr, DecidableEq, Inhabited
+
+def StatsV.combined (a b : StatsV) : StatsV :=
+  { size := a.size + b.size, hits := a.hits + b.hits, misses := a.misses + b.misses, cap := a.cap + b.cap }
+
+def Sieve.stats (s : Sieve) : StatsV := { size := s.size, hits := s.hits, misses := s.misses, cap := s.cap }
+def NeMap.stats (s : NeMap) : StatsV := { size := s.size, hits := s.hits, misses := s.misses, cap := s.cap }
+
 end Dawgs.C16
